@@ -103,6 +103,82 @@ fn case<S: Scheme>(ctx: &mut Ctx, rng: &mut ChaCha20Rng) {
     }
 }
 
+/// Directed search (inner-product argument): the Fiat-Shamir challenges are derived by hashing transcript bytes with
+/// a counter until the digest parses as a scalar; a digest is rejected with probability ~0.094, so openings whose
+/// FIRST round challenge needs many digests are far too rare for random sampling (9 digests: 6e-9 per opening).
+/// For one fixed small instance the transcript bytes of that challenge are (xi*C, z, xi*p(z)) with xi taken from the
+/// recorded sponge trace, so the harness can hash tens of millions of candidate points itself and hand the library
+/// the point with the deepest retry count found.
+fn ipa_deep_retry(ctx: &mut Ctx, idx: u64, rng: &mut ChaCha20Rng) {
+    use crate::ipa_ref::ser3;
+    use crate::schemes::{Cfg, IpaS, JFr};
+    use ark_ec::{AffineRepr, CurveGroup};
+    use ark_ff::Field;
+    use ark_poly::DenseUVPolynomial;
+    use digest::Digest;
+    type S = IpaS;
+    let cfg = Cfg { max_degree: 3, num_vars: None, supported_degree: 3, supported_hiding: 1, enforced: None };
+    let w = match make_world::<S>(&cfg, rng) {
+        Ok(w) => w,
+        Err((st, o)) => return ctx.violated("honest-pipeline-refused", &st, cfg.json(), json!({"outcome": o.json()})),
+    };
+    let coeffs: Vec<JFr> = (0..4).map(|_| <JFr as ark_ff::UniformRand>::rand(rng)).collect();
+    let p: LPoly<S> = ark_poly_commit::LabeledPolynomial::new("p".into(), ark_poly::univariate::DensePolynomial::from_coefficients_vec(coeffs.clone()), None, None);
+    let c = match commit::<S>(&w.ck, std::slice::from_ref(&p), 2) {
+        Ok(c) => c,
+        Err(o) => return ctx.violated("honest-pipeline-refused", "commit", cfg.json(), json!({"outcome": o.json()})),
+    };
+    let mut pre = vec![0u8; 9];
+    rng.fill_bytes(&mut pre);
+    let tx = Tx::<S> { w, specs: vec![], polys: vec![p], c, pre, commit_seed: 0 };
+    // xi: the first element squeezed by the prover (independent of the point)
+    let mut sp = tx.sponge();
+    if open::<S>(&tx, &[0], &JFr::from(5u64), &mut sp, 2).is_err() {
+        return ctx.skipped("deep-challenge-retry", "honest open refused (reported by the other classes)");
+    }
+    let xi: JFr = match sp.squeezed_fes::<JFr>().first() {
+        Some(x) => *x,
+        None => return ctx.skipped("deep-challenge-retry", "no squeezed challenge recorded"),
+    };
+    let cc = (tx.c.comms[0].commitment().comm * xi).into_affine();
+    let budget: u64 = if ctx.is_thorough() { 80_000_000 } else { 24_000_000 };
+    let digests = |z: &JFr| -> u32 {
+        let v = xi * coeffs.iter().rev().fold(JFr::from(0u64), |acc, c| acc * z + c);
+        let mut inp = ser3(&cc, z, &v);
+        let n = inp.len();
+        inp.extend(0u64.to_le_bytes());
+        let mut i = 0u64;
+        loop {
+            inp[n..].copy_from_slice(&i.to_le_bytes());
+            let h = blake2::Blake2s256::digest(&inp);
+            if JFr::from_random_bytes(&h).is_some() {
+                return i as u32 + 1;
+            }
+            i += 1;
+        }
+    };
+    let (mut best, mut best_z) = (0u32, JFr::from(0u64));
+    let base = (idx << 40) + 7;
+    for j in 0..budget {
+        let z = JFr::from(base + j);
+        let d = digests(&z);
+        if d > best {
+            best = d;
+            best_z = z;
+        }
+    }
+    ctx.count(&format!("deepest-retry:{}-digests", best), 1);
+    let desc = json!({"coefficients": crate::ju::fes(&coeffs), "point": crate::ju::fe(&best_z), "digests_needed_for_first_round_challenge": best, "candidates_hashed": budget});
+    let v = tx.polys[0].evaluate(&best_z);
+    match open::<S>(&tx, &[0], &best_z, &mut tx.sponge(), 2) {
+        Err(o) => ctx.violated("deep-challenge-retry", "open", desc, json!({"outcome": o.json()})),
+        Ok(pf) => {
+            let o = check::<S>(&tx.w.vk, &[&tx.c.comms[0]], &best_z, &[v], &pf, &mut tx.sponge(), 2);
+            ctx.check(o == Out::Accept, "deep-challenge-retry", "check", desc, || json!({"outcome": o.json()}));
+        }
+    }
+}
+
 pub fn run(ctx: &mut Ctx) {
     crate::schemes::set_custom_params(true);
     crate::schemes::SPECIAL_POINTS.store(true, std::sync::atomic::Ordering::Relaxed);
@@ -117,5 +193,6 @@ pub fn run(ctx: &mut Ctx) {
         ctx.run_cases(&format!("{}/large", <S as Scheme>::NAME), n, |ctx, _i, rng| case::<S>(ctx, rng));
     });
     crate::schemes::set_large(false);
+    ctx.run_cases("ipa/deep-retry", 16, |ctx, i, rng| ipa_deep_retry(ctx, i, rng));
     super::offtrait::c01(ctx);
 }
